@@ -202,9 +202,37 @@ static void run_helpers() {
     }
 }
 
+// ---------------------------------------------------------------- fourth part: context objects of unusual types - a pointer, an array (must not decay to a copy),
+// a std::reference_wrapper, a callable, a type with an overloaded operator& - and a parser whose '>=' functors are generic (they could accept a context, and must not get one)
+struct Amp { int hits = 0; Amp* operator&() = delete; };
+constexpr nterm<int> u_root("root");
+template<class F> static auto make_u(F f) { return parser(u_root, terms('a'), nterms(u_root), rules(u_root('a') >>= f, u_root(u_root, 'a') >= [](auto&&... all) { return int(sizeof...(all)) * 100; })); }
+static void run_unusual() {
+    auto chk = [](const char* what, bool ok, const std::string& detail) { ++g_cases; ++g_checks; if (!ok) fail(0, what, "a / aa", detail); };
+    {   int target = 0; int* ptr = &target;
+        static const auto p = make_u([](int* c, skip) { ++*c; return 1; });
+        auto r = p.context_parse(ptr, string_buffer("a")); chk("pointer context", r && *r == 1 && target == 1, "the functor did not receive the caller's pointer");
+        auto r2 = p.context_parse(ptr, string_buffer("aa")); chk("pointer context, generic >= functor", r2 && *r2 == 200, "a generic functor attached with >= received " + std::to_string(r2 ? *r2 / 100 : -1) + " arguments for a 2-symbol rule"); }
+    {   int arr[3] = {0, 0, 0};
+        static const auto p = make_u([](int (&c)[3], skip) { c[2] = 9; return 1; });
+        auto r = p.context_parse(arr, string_buffer("a")); chk("array context", r && arr[2] == 9, "the caller's array was not the object the functor wrote to"); }
+    {   int target = 0; auto rw = std::ref(target);
+        static const auto p = make_u([](std::reference_wrapper<int>& c, skip) { c.get() += 5; return 1; });
+        auto r = p.context_parse(rw, string_buffer("a")); chk("reference_wrapper context", r && target == 5, "mutation through the reference_wrapper not visible"); }
+    {   int count = 0; auto callable = [&count](int d) { count += d; };
+        static const auto p = make_u([](auto& c, skip) { c(3); return 1; });
+        auto r = p.context_parse(callable, string_buffer("a")); chk("callable context", r && count == 3, "the caller's callable was not the one invoked"); }
+    {   Amp amp;
+        static const auto p = make_u([](Amp& c, skip) { c.hits++; return 1; });
+        auto r = p.context_parse(amp, string_buffer("a")); chk("context type with a deleted operator&", r && amp.hits == 1, "mutation not visible"); }
+    {   const volatile int cv = 4;
+        static const auto p = make_u([](const volatile int& c, skip) { return int(c) + 1; });
+        auto r = p.context_parse(cv, string_buffer("a")); chk("const volatile context", r && *r == 5, "wrong value"); }
+}
+
 int main(int argc, char** argv) {
     int n = argc > 1 ? std::atoi(argv[1]) : 4;
-    run_helpers();
+    run_helpers(); run_unusual();
     {
         std::vector<std::string> in2{""}; int n2 = n > 6 ? 7 : n + 2;
         for (size_t lo = 0, l = 0; l < (size_t)n2; ++l) { size_t hi = in2.size(); for (size_t i = lo; i < hi; ++i) for (char c : {'a', 'b', ';', 'n'}) in2.push_back(in2[i] + c); lo = hi; }
